@@ -19,3 +19,115 @@ Theorem C03_normalisation_sound :
     traceA (sstep d mid) s ins = traceA (sstep_n d T mid) n ins.
 Proof. exact norm_traces_s. Qed.
 Print Assumptions C03_normalisation_sound.
+
+(** ** ALL PROGRAMS: the lowering model [Models/SeqLower.v] (how the compiler renders a clocked context
+    body to VHDL statements; tied to the real compiler per case by harness/c03_lower.py) against the
+    reference semantics [SeqRef].
+
+    Full statement aimed at (NOT proved; the lift through the delta-cycle / settle / test-bench machinery,
+    i.e. clock driving, [rising_edge] events, the buffer-to-port concurrent assignments and [power_up_s],
+    is missing):
+
+      forall its ds vts sinit vinit body, in_grammar its ds vts body = true -> decls_ok ds body = true ->
+        forall ins, (inputs well typed for [its]) ->
+          traceA (sstep (lower its ds vts sinit vinit body) false) (power_up_s (lower ...)) ins
+          = traceB (seq_step ds body) (sinit ++ vinit) ins.
+
+    Proved (hence [_partial]): the one-activation theorem - for EVERY body of the grammar, every store that is
+    well typed for the declarations and every input vector, the lowered process run on a rising clock edge
+    under [Vhdl.Sem] ([run_conc] = [exec] on the old signal store, writes collected) followed by [commit]
+    leaves in the buffer signals exactly [finish ds (w_pend w) (w_pushed w)] and in the process variables
+    exactly [w_vars w], where [w = sexec inp old body ...] - which is the next state of [seq_step ds body];
+    every other signal is unchanged.  Grammar: targets [<<=] (whole signal), [^=], [@=]; expressions
+    XIn XSig XVar XConst XAdd XSub XAnd XOr XXor XNot XEq XNe XLt XIte over Bit / Unsigned[w] / BitVector[w]
+    objects; RSkip RAssign RSeq RIf.  Bit / slice targets, XBit, XSlice, XConcat are outside the grammar. *)
+From Coq Require Import Lia.
+From Cohdl Require Import Models.SeqLower Models.SeqLowerProofs.
+Local Open Scope Z_scope.
+
+Theorem C03_lower_correct_partial :
+  forall its ds vts body sg ev inp old vr vars,
+  in_grammar its ds vts body = true -> decls_ok ds body = true ->
+  (forall k, (k < ni its)%nat ->
+     PM.find (ipos k) sg = Some (ence (ity its k) (nth k inp 0)) /\ zokb (ity its k) (nth k inp 0) = true) ->
+  (forall k, (k < ns ds)%nat ->
+     PM.find (bpos its ds k) sg = Some (ence (sgty ds k) (nth k old 0)) /\ zokb (sgty ds k) (nth k old 0) = true) ->
+  PM.find clkp sg = Some (VL true) -> PS.mem clkp ev = true ->
+  length old = ns ds -> (nv vts <= length vars)%nat ->
+  vrel vts (tmps_s its ds vts body) vr vars ->
+  let w := sexec inp old body {| w_pend := old; w_vars := vars; w_pushed := [] |} in
+  let sigs' := finish ds (w_pend w) (w_pushed w) 0 in
+  exists vr' ws sg',
+    run_conc sg vr ev (lower_proc its ds vts (pushed_in body) body) = Ok (vr', ws) /\
+    commit sg ws = Ok sg' /\
+    vrel vts (tmps_s its ds vts body) vr' (w_vars w) /\
+    (forall k, (k < ns ds)%nat -> PM.find (bpos its ds k) sg' = Some (ence (sgty ds k) (nth k sigs' 0))) /\
+    (forall p, (forall k, (k < ns ds)%nat -> p <> bpos its ds k) -> PM.find p sg' = PM.find p sg).
+Proof. exact lower_activation_correct. Qed.
+Print Assumptions C03_lower_correct_partial.
+
+(** without a rising edge of the clock the lowered process changes nothing *)
+Theorem C03_lower_idle :
+  forall its ds vts pu sg ev body vr b,
+  PM.find clkp sg = Some (VL b) -> (PS.mem clkp ev && Bool.eqb b true) = false ->
+  run_conc sg vr ev (lower_proc its ds vts pu body) = Ok (vr, []).
+Proof. exact lower_process_idle. Qed.
+Print Assumptions C03_lower_idle.
+
+(** the statement-level simulation the activation theorem rests on (any sub-statement, any point of the
+    activation, any temporaries counter) *)
+Theorem C03_lower_stm_correct :
+  forall its ds vts pu sg ev inp old tys,
+  (forall k, (k < ni its)%nat ->
+     PM.find (ipos k) sg = Some (ence (ity its k) (nth k inp 0)) /\ zokb (ity its k) (nth k inp 0) = true) ->
+  (forall k, (k < ns ds)%nat ->
+     PM.find (bpos its ds k) sg = Some (ence (sgty ds k) (nth k old 0)) /\ zokb (sgty ds k) (nth k old 0) = true) ->
+  forall s n w vr ws,
+  wt_s its ds vts pu s = true -> pre tys (tmps_s its ds vts s) n ->
+  vrel vts tys vr (w_vars w) -> prel its ds pu sg ws (w_pend w) (w_pushed w) -> st_ok ds vts w ->
+  exists vr' ws', exec sg ev (lower_stm its ds vts n s) vr ws = Ok (vr', ws') /\
+    vrel vts tys vr' (w_vars (sexec inp old s w)) /\
+    prel its ds pu sg ws' (w_pend (sexec inp old s w)) (w_pushed (sexec inp old s w)) /\
+    st_ok ds vts (sexec inp old s w).
+Proof. exact lower_stm_ok. Qed.
+Print Assumptions C03_lower_stm_correct.
+
+(** non-vacuity: a body with a push, a variable, an if and an if-expression is in the grammar, its
+    declarations pass [decls_ok], and the store hypotheses hold of the declared stores of the lowered design
+    at a rising clock edge *)
+Definition ex_its := [SBit; SUns 2%N].
+Definition ex_ds := [{| s_ty := SBit; s_push := true; s_def := 0 |}; {| s_ty := SUns 2%N; s_push := false; s_def := 1 |}].
+Definition ex_vts := [SUns 2%N].
+Definition ex_body : stm :=
+  RSeq (RAssign (TVar 0) (XAdd 2%N (XVar 0) (XConst 1)))
+       (RIf (XIn 0) (RAssign (TPush 0) (XLt (XVar 0) (XIn 1)))
+                    (RAssign (TSig 1) (XIte (XEq (XSig 1) (XConst 3)) (XConst 0) (XSub 2%N (XSig 1) (XVar 0))))).
+Definition ex_d := lower ex_its ex_ds ex_vts [0; 1] [2] ex_body.
+Definition ex_sg : store := PM.add clkp (VL true) (fst (decl_stores ex_d)).
+Definition ex_vr : store := snd (decl_stores ex_d).
+
+Example C03_lower_hyps_satisfiable :
+  in_grammar ex_its ex_ds ex_vts ex_body = true /\ decls_ok ex_ds ex_body = true /\
+  (forall k, (k < ni ex_its)%nat ->
+     PM.find (ipos k) ex_sg = Some (ence (ity ex_its k) (nth k [0; 0] 0)) /\ zokb (ity ex_its k) (nth k [0; 0] 0) = true) /\
+  (forall k, (k < ns ex_ds)%nat ->
+     PM.find (bpos ex_its ex_ds k) ex_sg = Some (ence (sgty ex_ds k) (nth k [0; 1] 0)) /\ zokb (sgty ex_ds k) (nth k [0; 1] 0) = true) /\
+  PM.find clkp ex_sg = Some (VL true) /\ PS.mem clkp (PS.add clkp PS.empty) = true /\
+  vrel ex_vts (tmps_s ex_its ex_ds ex_vts ex_body) ex_vr [2].
+Proof.
+  split; [vm_compute; reflexivity|]. split; [vm_compute; reflexivity|].
+  split. { intros k Hk. destruct k as [|[|k]]; [vm_compute; auto|vm_compute; auto|]. exfalso. cbn in Hk. lia. }
+  split. { intros k Hk. destruct k as [|[|k]]; [vm_compute; auto|vm_compute; auto|]. exfalso. cbn in Hk. lia. }
+  split; [vm_compute; reflexivity|]. split; [vm_compute; reflexivity|].
+  split.
+  - intros k Hk. destruct k as [|k]; [vm_compute; auto|]. exfalso. cbn in Hk. lia.
+  - intros i Hi. destruct i as [|i]; [vm_compute; eexists; split; reflexivity|]. exfalso. cbn in Hi. lia.
+Qed.
+
+(** the same instance, computed: the lowered process and the reference agree (a sanity check of the statement) *)
+Example C03_lower_instance :
+  (do r <- run_conc ex_sg ex_vr (PS.add clkp PS.empty) (lower_proc ex_its ex_ds ex_vts (pushed_in ex_body) ex_body);
+   do s <- commit ex_sg (snd r);
+   Ok (map (fun k => PM.find (bpos ex_its ex_ds k) s) [0%nat; 1%nat], PM.find (vp 0) (fst r)))
+  = Ok ([Some (VL false); Some (VV KUns 2%N 2)], Some (VV KUns 2%N 3)).
+Proof. vm_compute. reflexivity. Qed.
